@@ -41,6 +41,40 @@ INLINE_CMS = set()          # quals of small generator context managers executed
 VAL_METHOD_CONTRACTS = {}  # method name on an opaque object -> contract qual
 
 
+def _declared_global_somewhere(ex, fname, name):
+  key = ('globals', fname)
+  cache = ex.repo.__dict__.setdefault('_adhoc_cache', {})
+  if key not in cache:
+    names = set()
+    for n in ast.walk(ex.repo.tree[fname]):
+      if isinstance(n, ast.Global):
+        names.update(n.names)
+    cache[key] = names
+  return name in cache[key]
+
+
+def adhoc_global_kind(ex, fname, name):
+  """Kind of a module-level variable that some function rebinds (`global name`) and that is
+  not part of the declared state: inferred from its initial literal.  None if `name` is not
+  such a variable."""
+  if name in STATE or not _declared_global_somewhere(ex, fname, name):
+    return None
+  for n in ex.repo.tree[fname].body:
+    if isinstance(n, ast.Assign) and len(n.targets) == 1 and \
+        isinstance(n.targets[0], ast.Name) and n.targets[0].id == name and \
+        isinstance(n.value, ast.Constant):
+      v = n.value.value
+      if isinstance(v, bool):
+        return sym.KBool
+      if isinstance(v, int):
+        return sym.KInt
+      if isinstance(v, str):
+        return sym.KStr
+      if v is None:
+        return sym.KVal
+  return None
+
+
 def resolve_global(ex, fname, name):
   if name.endswith('_RE'):
     pat = regex_pattern(ex.repo, fname, name)
